@@ -33,18 +33,13 @@ CLAIMS['C17'] = dict(
 COMMON_NOTE = ("Trusted: the cdns2c lowering (clang 14 JSON AST -> C, closed rule table), CBMC 6.11 dfcc and its SAT/SMT back ends, LP64, and the "
                "library models listed in the evidence file's trusted_base (optional/string/vector abstractions, istream, sink, BlockTable as a sequence). ")
 CLAIMS['C05'] = dict(
-    text="Proof that read_to_buffer (the only refill point) raises end-of-input exactly when no input byte is left - for every window position, "
-         "every stream state (good / eof / failed = unopened) and every remaining length incl. 0 and exact multiples of the window - and otherwise "
-         "leaves at least one unread byte in the window with the logical position unchanged; peek/read_cbor_type/read_int/all typed head readers and "
-         "definite strings inherit 'too few bytes => end-of-input, nothing returned' through its contract.",
-    note=COMMON_NOTE + "The 'truncated file yields only complete blocks' consequence rests on the reader units (r.*) consuming whole maps; CdnsReader::read_block itself is not under contract.",
-    technique="CBMC dfcc contracts on the lowered decoder against a ghost std::istream model with two watched input bytes", design_ref="6/C05, 12.2")
+    text="Proof that read_to_buffer (the only refill point) raises end-of-input exactly when no input byte is left - for every window position, every stream state and every remaining length incl. 0 and exact multiples of the window - and otherwise leaves at least one unread byte in the window with the logical position unchanged; peek/read_cbor_type/read_int/all typed head readers and definite strings inherit 'too few bytes => end-of-input, nothing returned' through its contract. CdnsReader::read_file_header and read_block: every decoder error propagates (a truncated file is never reported as a clean end), a block is returned only after CdnsBlockRead::read returned normally.",
+    note=COMMON_NOTE + "The 'only complete blocks' consequence composes rdr.read_block with the reader units (r.*, rdb.*) consuming whole maps.",
+    technique='CBMC dfcc contracts on the lowered decoder against a ghost std::istream model with two watched input bytes', design_ref='6/C05, 12.2')
 CLAIMS['C07'] = dict(
-    text="Proof for read_unsigned/negative/integer/bool/array_start/map_start/break/read_int and definite-length strings: every head width (also "
-         "non-preferred), value per byte lane, position advanced by exactly the item's bytes, any placement relative to the 65535-byte window incl. "
-         "a refill between any two bytes, format error exactly for the heads RFC 8949 forbids for that reader. NOT covered: chunked strings and skip_item (see DESIGN 12.2).",
-    note=COMMON_NOTE + "Partial claim: the indefinite-length string branch and skip_item exceeded the verifier's reach (memory) and a bounded stand-in did not terminate; they are not counted.",
-    technique="CBMC dfcc function + loop contracts on lowered decoder bodies; RFC 8949 head grammar as macros; watched head/argument bytes", design_ref="6/C07, 12.2")
+    text="Head level (dec.*): read_unsigned/negative/integer/bool/array_start/map_start/break/read_int and definite-length strings: every head width (also non-preferred), value per byte lane, position advanced by exactly the item's bytes, any placement relative to the 65535-byte window incl. a refill between any two bytes, format error exactly for the heads RFC 8949 forbids for that reader. Structure level (dec2.*, against executable forms of the head-level contracts over a one-byte window): read_bytestring/read_textstring (type check, one read_string with the head's length, indefinite iff code 31), chunked strings (chunks until a stop code at a chunk boundary, which is consumed) and skip_item (integers/simple: head only; tags: exactly one nested item; strings: one body; definite containers: exactly n / 2n nested items; indefinite containers end at a stop code at an item boundary; induction on the remaining input for the recursion).",
+    note=COMMON_NOTE + 'Definite containers with >= 2^32 members and recursion depth (stack use) of skip_item are outside the contracts.',
+    technique='CBMC dfcc function + loop contracts on lowered decoder bodies; RFC 8949 head grammar as macros; watched head/argument bytes', design_ref='6/C07, 12.2')
 CLAIMS['C10'] = dict(
     text="Proof that every encoder operation returns exactly the bytes it appends (byte layer) and that every *::write, CdnsBlock::write, "
          "write_file_header, write_block, buffer_*, rotate_output return exactly the sum of what they caused to be appended (ghost byte counter), "
@@ -59,23 +54,17 @@ CLAIMS['C02'] = dict(
     note=COMMON_NOTE + "Index closure ('every stored index addresses an existing entry') is covered only by call counting in the add.* units (one table insertion per stored reference).",
     technique="CBMC dfcc contracts against a ghost CBOR grammar monitor / key tracker; contracts generated from RFC 8618 tables", design_ref="6/C02, 12.2")
 CLAIMS['C09'] = dict(
-    text="Writers of the preamble structures emit, for every RFC key, the member's value iff it is present (absent optional => no key; present-but-empty "
-         "structure => empty map); readers set each member to the last value delivered under its RFC key and leave it in its reset state otherwise "
-         "(quick tier: StorageHints, BlockParameters; thorough tier: StorageParameters, CollectionParameters, FilePreamble readers).",
-    note=COMMON_NOTE + "The three list-bearing readers run only in the thorough tier (15-35 min); write->read equality is the composition of the two per-key statements over the same RFC table (A13).",
-    technique="CBMC dfcc contracts with a watched map key on both sides; generated from RFC 8618 tables", design_ref="6/C09, 12.2")
+    text="Writers of the preamble structures emit, for every RFC key, the member's value iff it is present (absent optional => no key; present-but-empty structure => empty map); readers set each member to the last value delivered under its RFC key and leave it in its reset state otherwise (all five preamble readers and their list members in the quick tier, list members as separate read_array instance units).",
+    note=COMMON_NOTE + 'write->read equality is the composition of the two per-key statements over the same RFC table (A13).',
+    technique='CBMC dfcc contracts with a watched map key on both sides; generated from RFC 8618 tables', design_ref='6/C09, 12.2')
 CLAIMS['C08'] = dict(
-    text="Proof per reader, for a map with an arbitrary number of entries, arbitrary (unknown, negative, repeated) keys, definite or indefinite "
-         "form and any member order, that each member equals the last value delivered under its RFC key, unknown keys consume exactly one item "
-         "and change nothing, mandatory members missing => exception; head widths are abstracted away by the byte-layer contracts.",
-    note=COMMON_NOTE + "skip_item (used for unknown keys) is assumed to consume exactly one item (its contract is not discharged: DESIGN 12.2). CdnsBlockRead::read is not under contract.",
-    technique="CBMC dfcc loop contracts on lowered readers against a ghost token stream with protocol automaton", design_ref="6/C08, 12.2")
+    text='Proof per reader (17 structure readers, the block map, the tables map, the file header), for a map with an arbitrary number of entries, arbitrary (unknown, negative, repeated) keys, definite or indefinite form and any member order, that each member equals the last value delivered under its RFC key, each known key feeds exactly its own member/table, unknown keys consume exactly one item and change nothing, mandatory members missing => exception; skip_item and chunked strings at the structure level (dec2.*); head widths are abstracted away by the byte-layer contracts.',
+    note=COMMON_NOTE + "Element-level content of nested structures is carried by the nested reader's own unit (modular).",
+    technique='CBMC dfcc loop contracts on lowered readers against a ghost token stream with protocol automaton', design_ref='6/C08, 12.2')
 CLAIMS['C01'] = dict(
-    text="Chain of per-function proofs: add_* store exactly the hint-enabled supplied members (add.*), writers emit them under RFC keys with "
-         "exact values and offsets (w.*), byte layer encodes/decodes heads exactly (enc.*, dec.*), readers restore each member from its key (r.*), "
-         "timestamps round-trip (ts.*).",
-    note=COMMON_NOTE + "Composition of the links is a meta-argument (A13); CdnsBlockRead::read/read_generic_* (index -> value reconstruction) and BlockTable internals are not under contract.",
-    technique="composition of CBMC dfcc contracts across layers (RFC 8618 table as the independent oracle)", design_ref="6/C01, 12.2")
+    text='Chain of per-function proofs: add_* store exactly the hint-enabled supplied members (add.*) through the de-duplicating table wrappers (blk.add_*, btr.*), writers emit them under RFC keys with exact values and offsets (w.*), the byte layer encodes/decodes heads exactly (enc.*, dec.*, dec2.*), readers restore each member from its key and each table entry at its file position (r.*, rdb.read_blocktables, rabt.*), CdnsBlockRead::read resolves every stored offset exactly once against the final earliest time and the selected parameters (rdb.read), read_generic_qr/mm and fill_generic_*_list present every stored member and resolve every index through the bounds-checked accessors (rdb.*, blk.get_*), timestamps round-trip (ts.*).',
+    note=COMMON_NOTE + 'Composition of the links is a meta-argument (A13); read_generic_aec and the CdnsBlockRead constructors are not under contract.',
+    technique='composition of CBMC dfcc contracts across layers (RFC 8618 table as the independent oracle)', design_ref='6/C01, 12.2')
 CLAIMS['C04'] = dict(
     text="Proof for all 2^18 x 2^17 x 4 x 4 hint masks and all presence patterns (one symbolic call): a member is stored iff its hint bit is set and "
          "the value is supplied; exactly one table insertion per stored reference (no unreachable entries); address events / malformed messages "
@@ -87,37 +76,29 @@ CLAIMS['C12'] = dict(
     note=COMMON_NOTE + "Submission order/conservation is argued from 'grows by at most one, cleared only after a successful write'; sequence numbers are not modelled.",
     technique="CBMC dfcc contracts: data-structure invariant on CdnsExporter/CdnsBlock", design_ref="6/C12, 12.2")
 CLAIMS['C13'] = dict(
-    text="rotate_output (both instantiations): optional export, stop code iff a header was written, the encoder switch is reached only with an "
-         "output that is empty or one complete item (asserted in the stub), the new output starts empty with the counter reset; without export "
-         "the buffered records stay buffered; encoder flush_buffer empties the staging buffer before the sink is switched.",
-    note=COMMON_NOTE + "File-level facts (rename, suffix, .part) are not covered (C15 not claimed).", technique="CBMC dfcc contracts: exporter invariant + grammar monitor", design_ref="6/C13, 12.2")
+    text='rotate_output (exporter, both instantiations): optional export, stop code iff a header was written, the encoder switch is reached only with an output that is empty or one complete item (asserted in the stub), the new output starts empty with the counter reset; without export the buffered records stay buffered. CdnsEncoder::rotate_output<T> / ~CdnsEncoder (enc.rotate_output.*, enc.dtor): every byte produced for the old output reaches the sink before the sink is rotated. Compressing writers rotate the inner writer only with a finished, fully forwarded stream.',
+    note=COMMON_NOTE + 'File-level facts (rename order) are C15.',
+    technique='CBMC dfcc contracts: exporter invariant + grammar monitor', design_ref='6/C13, 12.2')
 CLAIMS['C11'] = dict(
-    text="For each block-table key type: operator== is exactly member-wise equality and equal keys hash equally (loop-free, complete); "
-         "CdnsBlock::clear resets all tables (exp.write_block); table insertions are counted per stored reference (add.*).",
-    note=COMMON_NOTE + "BlockTable<T>::add/find over std::deque/unordered_map are NOT under contract: partial claim.", technique="CBMC on lowered operator==/hash_value with CRC uninterpreted", design_ref="6/C11, 12.2")
+    text='For each block-table key type: operator== is exactly member-wise equality and equal keys hash equally (bt.eqhash.*, loop-free, complete). BlockTable<T> itself on its real template instantiations (btr.*, 7 tables): operator[] bounds-checked; find reports the stored index iff an equal key is present; add returns that index without growth, otherwise appends exactly the value at index old size; existing entries never change; the index map entry refers to the stored copy; clear empties entries and index. CdnsBlock wrappers (blk.add_*) search once for the given value and add only when absent; CdnsBlock::clear empties every table and item array whatever the block holds (blk.clear).',
+    note=COMMON_NOTE + 'std::unordered_map/std::deque themselves are library models (A7/A8): that an equal key is found when present rests on std::unordered_map plus the proved equality/hash agreement; reference stability of deque elements assumed.',
+    technique='CBMC (loop-free agreement units) + dfcc contracts on the lowered real template instantiations of BlockTable<T> and on CdnsBlock', design_ref='6/C11, 12.2')
 CLAIMS['C03'] = dict(
-    text="CBMC's bounds/pointer/signed-overflow/division/pointer-overflow checks discharged in every read-side unit (decoder primitives, 14+ item "
-         "readers, Timestamp arithmetic), decreases clauses on every loop under contract, and the allocation precondition of reserve().",
-    note=COMMON_NOTE + "Partial: CLI tools, text renderers, skip_item, CdnsBlockRead and the record accessors are not under contract.",
-    technique="CBMC dfcc contracts + generated safety checks on lowered read-side bodies", design_ref="6/C03, 12.4")
+    text="CBMC's bounds/pointer/signed-overflow/division/pointer-overflow checks discharged in every read-side unit: decoder primitives incl. skip_item and chunked strings, 17 item readers, block/tables/header readers, Timestamp arithmetic on untrusted values, BlockTable::operator[] and all nine table accessors (an index from a file is returned iff it is below the table size), read_generic_qr/mm and fill_generic_*_list (tables reached only through the checked accessors; block-parameters index bounds-checked), decreases clauses on loops under contract, and the allocation precondition of string reserve().",
+    note=COMMON_NOTE + "Partial: CLI tools, text renderers (dname/ip), read_generic_aec, IndexListItem::read's reserve and skip_item's recursion depth are not under contract.",
+    technique='CBMC dfcc contracts + generated safety checks on lowered read-side bodies', design_ref='6/C03, 12.4')
 CLAIMS['C14'] = dict(
-    text="Protocol-conformance proof under the zlib/liblzma manuals (A10): write() offers every input byte to the compressor exactly once, every byte the "
-         "compressor produced is forwarded to the inner writer exactly once from the start of the scratch buffer, close() finishes the stream "
-         "(FINISH until STREAM_END, then release) only if one is open, rotate_output rotates the inner writer only with a finished, fully forwarded stream "
-         "and opens one new stream (gzip: write_gzip/write/close/rotate_output; xz: write_lzma/write/close). Chunks <= 512 KiB; larger chunks are a known finding.",
-    note=COMMON_NOTE + "Decompress(output) == input rests on zlib/liblzma themselves; progress/termination of the compressor assumed; file-name suffixes not checked; xz open/rotate not lowered.",
-    technique="CBMC dfcc function + loop contracts against ghost models of deflate / lzma_code and the inner writer", design_ref="6/C14, 12.2")
+    text="Protocol-conformance proof under the zlib/liblzma manuals (A10), for chunks of any size < 2^50: write() offers every input byte to the compressor exactly once (in slices of at most 512 KiB, which bounds the scratch buffer and keeps zlib's 32-bit counters exact), every byte the compressor produced is forwarded to the inner writer exactly once from the start of the scratch buffer, close()/destruction finish the stream (FINISH until STREAM_END, then release) only if one is open, rotate_output rotates the inner writer only with a finished, fully forwarded stream and opens one new stream (gzip and xz: write step, write, close, rotate_output, destructor).",
+    note=COMMON_NOTE + 'Decompress(output) == input rests on zlib/liblzma themselves; progress/termination of the compressor assumed; file-name suffixes not checked.',
+    technique='CBMC dfcc function + loop contracts against ghost models of deflate / lzma_code and the inner writer', design_ref='6/C14, 12.2')
 CLAIMS['C15'] = dict(
-    text="Writer<std::string>::close: the rename to the final name is issued only after flush and close of the stream, at most once per open, and not at "
-         "all when no file is open (ordering automaton over ofstream/rename events, failures nondeterministic).",
-    note=COMMON_NOTE + "Partial: the destructor chain (exporter -> encoder -> compressor -> file writer) and the '.part' path text are not under contract; crash points are collapsed to this happens-before statement under POSIX rename atomicity.",
-    technique="CBMC dfcc contract on the lowered template specialisation against a ghost event automaton", design_ref="6/C15, 12.2")
+    text="Ordering automaton over ofstream/rename events with nondeterministic failures: Writer<std::string>::close, rotate_output (real close/open bodies) and destructor rename '.part' to the final name only after flush and close of the stream, exactly once per closed file, never when no file is open; CdnsEncoder::rotate_output/~CdnsEncoder hand every produced byte to the sink first (incl. the closing break: enc.write_break, exp.dtor, exp.rotate_output.*); compressor destructors/close finish and forward the trailer before the inner writer is touched.",
+    note=COMMON_NOTE + "Crash points are collapsed to this happens-before statement under POSIX rename atomicity; the C++ order of member destruction (inner writer after the compressor's destructor body) and the '.part' path text are not modelled.",
+    technique='CBMC dfcc contract on the lowered template specialisation against a ghost event automaton', design_ref='6/C15, 12.2')
 CLAIMS['C16'] = dict(
-    text="Writer<int>::write returns normally iff the OS accepted every byte (short or failed ::write raises); on an output failure write_block() leaves "
-         "the buffered records untouched and rotate_output to a healthy output re-establishes the exporter invariant (exp.* units with a failing sink); "
-         "'rotate_output never returns normally for an output that lost bytes' is checked on GzipCborOutputWriter::rotate_output and is a KNOWN FINDING.",
-    note=COMMON_NOTE + "Partial: Writer<std::string>::write/close error reporting and the xz rotate are not under contract (same swallow pattern).",
-    technique="CBMC dfcc contracts with nondeterministic OS/sink failures (fault = nondeterminism)", design_ref="6/C16, 12.2")
+    text="Writer<int>::write returns normally iff the OS accepted every byte (short or failed ::write raises); CdnsEncoder::rotate_output propagates a rejected flush, does not rotate then and keeps the buffered bytes; on an output failure write_block() leaves the buffered records untouched and rotate_output to a healthy output re-establishes the exporter invariant (exp.* units with a failing sink). 'rotate_output never returns normally for an output that lost bytes' is checked on the compressing writers and on the named-file writer and is a KNOWN FINDING for both (close() swallows; the stream failbit is never looked at).",
+    note=COMMON_NOTE + 'Known findings F9/F11 are listed in known_findings.txt with native replays.',
+    technique='CBMC dfcc contracts with nondeterministic OS/sink failures (fault = nondeterminism)', design_ref='6/C16, 12.2')
 CLAIMS['C20'] = dict(category='other',
     text="First clause only ('keeps no shared mutable state'): exhaustive scan of clang's AST for every declaration with static storage duration in "
          "namespace CDNS (namespace scope, static members, static locals): all are const/constexpr; the frames of every function under contract in the "
